@@ -1394,6 +1394,47 @@ pub fn oracle_level_checks(run: &E1Run, rng: &mut Rng, oracle: &mut Oracle) -> (
             }
         }
     }
+    // a `log` put around one operand of the outermost operator: at most one line more (an operand is
+    // evaluated at most once unless an iteration operator repeats it)
+    if rng.chance(1, 2) {
+        let op = *rng.pick(&applies);
+        let rule: Value = serde_json::from_str(&op.args[0]).unwrap();
+        let parts = as_operation(&rule).and_then(|(name, args)| args.as_array().map(|xs| (name.to_string(), xs.clone())));
+        if let Some((name, xs)) = parts {
+            if name != "log" && !xs.is_empty() && gen::nesting(&rule) <= 120 {
+                let i = rng.below(xs.len());
+                let mut ys = xs.clone();
+                ys[i] = json!({"log": [xs[i].clone()]});
+                let mut m = serde_json::Map::new();
+                m.insert(name, Value::Array(ys));
+                let wrapped_rule = Value::Object(m);
+                let w = Op::apply(&wrapped_rule.to_string(), &op.args[1], false);
+                let (logs, iterates) = count_logs(&wrapped_rule);
+                let a = oracle.query(&w, ORACLE_STACK_KB);
+                let orig = oracle.query(op, ORACLE_STACK_KB);
+                n += 1;
+                let budget = |r: &Res| matches!(r, Res::Crash(m) if m.starts_with("over-budget"));
+                if !budget(&a.res) && !budget(&orig.res) {
+                    if !iterates && !op.args[1].contains("\"log\"") && log_lines(&a.out()) > logs {
+                        v.push(Violation {
+                            property: "C17".into(),
+                            class: "more-log-lines-than-log-operators".into(),
+                            thread: 0,
+                            op_idx: 0,
+                            op: Some(w.clone()),
+                            expected: format!("at most {} line(s): the rule holds {} `log` operator(s) and no iteration", logs, logs),
+                            got: format!("{} line(s): {:?}", log_lines(&a.out()), a.out()),
+                            needs: "input-only".into(),
+                        });
+                    }
+                    // (the result is not compared: this library evaluates the elements of a *literal* array
+                    // operand of an iteration operator as rules and passes a computed array through, so a
+                    // `log` around such an operand legitimately changes what is iterated)
+                    let _ = &orig;
+                }
+            }
+        }
+    }
     // a log that was evaluated writes its line even when a later operand of the same call fails
     if rng.chance(1, 4) {
         let l = gen::atom(rng);
